@@ -125,6 +125,58 @@ func TestVerifH11(t *testing.T) {
 	vt.Obs("ok")
 	vt.Flush()
 
+	// phase 1b: Refresh(0) and a new Allocate back to back on one 5-tuple: the goroutines of the allocation that has just been
+	// deleted (relay reader, timers) must not take the new one down with them
+	vt.OpSync("trace race-reallocate")
+	if c, err := newRealCli("RR", "alice", h2Users["alice"], lis[1].LocalAddr()); err == nil {
+		vanished, rounds := 0, 0
+		build := func(method stun.Method, attrs ...stun.Setter) []byte {
+			c.tid++
+			st := []stun.Setter{stun.NewTransactionIDSetter(tidOf(c.tid)), stun.NewType(method, stun.ClassRequest)}
+			st = append(st, attrs...)
+			st = append(st, stun.NewUsername(c.user), stun.NewRealm(c.realm), stun.NewNonce(c.nonce),
+				stun.MessageIntegrity(GenerateAuthKey(c.user, c.realm, c.pass)))
+			m, _ := stun.Build(st...)
+			return m.Raw
+		}
+		if okResp(c.do(stun.MethodAllocate, proto.RequestedTransport{Protocol: proto.ProtoUDP})) { // learns realm and nonce
+			for i := 0; i < 300 && vanished < 3; i++ {
+				// both datagrams are on the server's socket before the first is handled
+				_, _ = c.pc.WriteTo(build(stun.MethodRefresh, proto.Lifetime{}), c.srv)
+				_, _ = c.pc.WriteTo(build(stun.MethodAllocate, proto.RequestedTransport{Protocol: proto.ProtoUDP}), c.srv)
+				got := 0
+				okAlloc := false
+				for got < 2 {
+					select {
+					case r := <-c.resp:
+						got++
+						if r.Type.Method == stun.MethodAllocate && r.Type.Class == stun.ClassSuccessResponse {
+							okAlloc = true
+						}
+					case <-time.After(time.Second):
+						got = 2
+					}
+				}
+				if !okAlloc {
+					_ = c.do(stun.MethodAllocate, proto.RequestedTransport{Protocol: proto.ProtoUDP})
+					continue
+				}
+				rounds++
+				time.Sleep(3 * time.Millisecond)
+				if !okResp(c.do(stun.MethodRefresh, proto.Lifetime{Duration: 10 * time.Minute})) {
+					vanished++
+					_ = c.do(stun.MethodAllocate, proto.RequestedTransport{Protocol: proto.ProtoUDP})
+				}
+			}
+		}
+		if vanished > 0 {
+			vt.Alarm("allocation-vanished-after-success", "%d of %d allocations made right after a Refresh(0) on the same 5-tuple were gone milliseconds after their success response", vanished, rounds)
+		}
+		_ = c.pc.Close()
+	}
+	vt.Obs("ok")
+	vt.Flush()
+
 	// phase 2: a real turn.Client; its relayed socket is used from several goroutines at once
 	vt.OpSync("trace race-client")
 	cpc, err := net.ListenPacket("udp4", "127.0.0.1:0")
@@ -144,6 +196,28 @@ func TestVerifH11(t *testing.T) {
 						defer p2.Close() //nolint:errcheck
 						peers = append(peers, p2.LocalAddr().(*net.UDPAddr)) //nolint:forcetypeassert
 					}
+				}
+				// several goroutines write to a NEW peer at the same instant (the permission for its IP exists after the first
+				// round): the peer must get one binding, not two - a second ChannelBind for it is refused by the server and
+				// the client then closes its own allocation
+				for round := 0; round < 60; round++ {
+					np := &net.UDPAddr{IP: net.IPv4(127, 0, 0, 1), Port: 20000 + round}
+					start := make(chan struct{})
+					var fw sync.WaitGroup
+					for g := 0; g < 4; g++ {
+						fw.Add(1)
+						go func() {
+							defer fw.Done()
+							<-start
+							_, _ = relay.WriteTo([]byte("first"), np)
+						}()
+					}
+					close(start)
+					fw.Wait()
+				}
+				time.Sleep(300 * time.Millisecond)
+				if _, werr := relay.WriteTo([]byte("still-open?"), peerAddr); werr != nil {
+					vt.Alarm("concurrent-first-write-closes-allocation", "after concurrent first writes to new peers the relayed socket is unusable: %v", werr)
 				}
 				// first writes (permission + binding), then wait for the bindings to be confirmed
 				for _, p := range peers {
